@@ -36,6 +36,24 @@ def topic_is_ctx_switches(body):
     return out
 
 
+def filtered_by_ctx_topic(run, e):
+    """Does the value `e` come out of an iterator that was `.filter(|f| f.topic == "xs.context")`ed?"""
+    for y in walk(e):
+        if y[0] == "call" and y[1].fn == "core::iter::traits::iterator::Iterator::filter" and len(y[2]) > 1:
+            clo = strip(y[2][1])
+            cb = run.facts.body(clo[1].get("def")) if clo[0] == "agg" and clo[1].get("def") else None
+            if cb is None:
+                continue
+            rets = cb.return_defs()
+            if len(rets) != 1:
+                continue
+            cm = q.comparison(rets[0][1])
+            if cm and cm[0] == "eq" and any(CTX_TOPIC in q.const_strs(s2) for s2 in (cm[1], cm[2])) and any(q.has_field(s2, "topic") for s2 in (cm[1], cm[2])):
+                run.touch(cb)
+                return True
+    return False
+
+
 def zero_ctx_switches(body):
     """[(bb, is_zero_edges, non_zero_edges)] for comparisons of a context_id with ZERO_CONTEXT."""
     out = []
@@ -183,7 +201,7 @@ def r3(run):
             d = "read_sync(%s, %s, %s)" % (fmt(last), fmt(lim), fmt(ctx))
         run.ob("%s|reload|source" % C.NEW, ok_src, c.sp, "registered ids come from an unbounded scan of the zero context: %s" % d, reason="reload-scope")
         run.ob("%s|reload|own-id" % C.NEW, q.last_field(v) == "id", c.sp, "the reloaded id is the frame's id: %s" % fmt(v)[:120], reason="wrong-id-registered")
-        run.ob("%s|reload|topic-guard" % C.NEW, bool(t_edges) and q.dominated(b, c.bb, via_edges=t_edges), c.sp,
+        run.ob("%s|reload|topic-guard" % C.NEW, (bool(t_edges) and q.dominated(b, c.bb, via_edges=t_edges)) or filtered_by_ctx_topic(run, c.arg(1)), c.sp,
                "the reload insert is guarded by topic == \"xs.context\"", reason="reload-guard")
     rs = q.live_calls(b, C.READ_SYNC)
     for r in b.return_blocks():
@@ -210,7 +228,7 @@ def r4(run):
             ok_fn = fn in ALLOWED_WRITERS and b.def_ == fn
             regs = topic_is_ctx_switches(b)
             t_edges = [e for (bb, t, f) in regs for e in t]
-            guarded = bool(t_edges) and q.dominated(b, c.bb, via_edges=t_edges)
+            guarded = (bool(t_edges) and q.dominated(b, c.bb, via_edges=t_edges)) or (len(c.args) > 1 and filtered_by_ctx_topic(run, c.arg(1)))
             v = strip(c.arg(1)) if len(c.args) > 1 else None
             own = v is not None and q.last_field(v) == "id"
             run.ob("%s|registry-%s" % (fn, m), ok_fn and guarded and own and m in ("insert", "remove"), c.sp,
@@ -251,7 +269,9 @@ def r5(run):
                 run.ob("%s|registry-insert|zero-context-only" % b.def_, bool(z_edges) and all(q.dominated(b, r.bb, via_edges=z_edges) for r in upd), upd[0].sp,
                        "registration on the store path applies to zero-context frames only, like the reload at open", reason="registry-not-function-of-frames")
                 # every path from (topic==ctx && zero) to a return passes the registry insert
-                starts = [t for (_, t, _) in z_edges if any(q.dominated(b, t, via_edges=t_edges) for _ in [0])]
+                # where both tests have succeeded, whichever comes first (`a && b`, or nested ifs in either order)
+                starts = [t for (_, t, _) in z_edges if q.dominated(b, t, via_edges=t_edges)] + \
+                         [t for (_, t, _) in t_edges if q.dominated(b, t, via_edges=z_edges)]
                 reach = b.reachable_blocks(starts, removed_blocks=[r.bb for r in upd]) if starts else set()
                 rets = [r for r in b.return_blocks() if r in reach]
                 run.ob("%s|registry-insert|on-every-path" % b.def_, bool(starts) and not rets, upd[0].sp,
